@@ -21,13 +21,14 @@ MODELLED = (
     "(hypothesis no_name0). Old-style flyer streams (_local_descriptors) are not modelled.")
 RULE = ("corpus (the pre-repair C16-a witness as regression); exhaustive: all op sequences of length <= 3 (quick; + 300 sampled of length 4..6) / <= 4 "
         "(thorough; + 3000 sampled) over {monitor o1 as s5, o1 fires, create s1, read o1, read o2, save, configure o1, "
-        "configure o2, unmonitor o1} after open_run; random walks, configure profile (several bundled streams sharing "
+        "configure o2, unmonitor o1, suspend_monitors, restore_monitors} after open_run; random walks, configure profile (several bundled streams sharing "
         "devices, monitors, declared streams, collects) and malformed stream. Every case: full per-op comparison of model "
         "vs real RunBundler. "
         "non-trivial = a successful configure that re-described at least one stream; distinct by op list")
 
 ALPHABET = [("monitor", 1, 5, False), ("mon_event", 1, ((1, 9),)), ("create", 1, ()), ("read", 1, ((1, 11),), ()),
-            ("read", 2, ((2, 22), (3, 33)), ()), ("save",), ("configure", 1, 42), ("configure", 2, 17), ("unmonitor", 1)]
+            ("read", 2, ((2, 22), (3, 33)), ()), ("save",), ("configure", 1, 42), ("configure", 2, 17), ("unmonitor", 1),
+            ("suspend_monitors",), ("restore_monitors",)]
 
 
 def cases(rng, tier):
